@@ -3374,6 +3374,8 @@ bn_mod_inv_bin(bn_p bn, bn_p m, bn_mod_rd_data_p mod_rd_data) {
 
 	if (0 != bn_is_zero(bn) || 0 != bn_is_zero(m) || bn_cmp(bn, m) >= 0)
 		return (EINVAL);
+	if (0 == bn_is_odd(m)) /* Halving of x1/x2 below works for odd modulus only. */
+		return (EINVAL);
 	bits = ((4 + MAX(bn->digits, m->digits)) * BN_DIGIT_BITS);
 	BN_RET_ON_ERR(bn_init(&u, bits));
 	BN_RET_ON_ERR(bn_init(&v, bits));
@@ -3386,6 +3388,8 @@ bn_mod_inv_bin(bn_p bn, bn_p m, bn_mod_rd_data_p mod_rd_data) {
 	//bn_assign_zero(&x2);
 
 	while (0 == bn_is_one(&u) && 0 == bn_is_one(&v)) {
+		if (0 != bn_is_zero(&u) || 0 != bn_is_zero(&v))
+			return (EINVAL); /* gcd(bn, m) != 1: no inverse, would loop forever. */
 		while (0 != bn_is_even(&u)) { /* Zero bit check. */
 			bn_r_shift(&u, 1);
 			if (0 == bn_is_even(&x1)) {
